@@ -315,6 +315,10 @@ func runC07(c *Ctx) {
 	// a chunk copy that failed (connection lost, read timeout, backend gone) ends the transfer: on every path to the
 	// handler's return the pipe is aborted (reset() or Close()), so a later "BDAT 0 LAST" cannot complete the truncated
 	// message with a clean end-of-file
+	// what the backend reads for a chunked message IS the reading end of the pipe: nothing in between (a LimitReader,
+	// a buffering wrapper) can turn "no more octets for now" or "limit reached" into a clean end-of-file
+	c.R.Rule("R-bdat-reader-is-the-pipe", "E4 value flow", "the reader handed to Session.Data/LMTPData for a BDAT message is io.Pipe()'s reading end itself", 2)
+	ruleBdatReaderIsPipe(c)
 	c.R.Rule("R-failed-chunk-aborts", "E2 must-pass-through under hypothesis", "after io.Copy into the BDAT pipe returned an error every path through handleBdat passes through reset() or Close()", 1)
 	if f := c.A.Func("(*Conn).handleBdat"); f != nil {
 		_, s2 := c.Std()
@@ -331,4 +335,37 @@ func runC07(c *Ctx) {
 	if f := c.A.Func("(*Conn).handleBdat"); f != nil {
 		c.obFollow("552 then reset", f, c.direct("reply:552"), []string{lReset}, nil, nil)
 	}
+}
+
+// ruleBdatReaderIsPipe (C07, C05).
+func ruleBdatReaderIsPipe(c *Ctx) {
+	R := c.R
+	f := c.A.Func("(*Conn).handleBdat")
+	if f == nil {
+		return
+	}
+	n := 0
+	for _, g := range withClosures(f) {
+		allInstrs(g, func(in ssa.Instruction) {
+			ls := c.stdLabels(in)
+			if !labelHas(ls, lData) && !labelHas(ls, lLMTPData) {
+				return
+			}
+			cc := callCommon(in)
+			if cc == nil || len(cc.Args) == 0 {
+				return
+			}
+			n++
+			ok := true
+			var got []string
+			for _, l := range leafSources(cc.Args[0]) {
+				got = append(got, l)
+				if l != "io.Pipe()#0" {
+					ok = false
+				}
+			}
+			R.Ob(c.siteKey(in, "backend reads the pipe itself"), c.P.InstrPos(in), ok && len(got) > 0, fmt.Sprintf("the backend is handed %v: a wrapper around the pipe can report a clean end-of-file although no LAST chunk was received (io.LimitReader at exactly the limit), or hide the abort error", got))
+		})
+	}
+	R.Ob("(*Conn).handleBdat/delivery calls found", c.P.Pos(f.Pos()), n >= 2, fmt.Sprintf("%d Data/LMTPData calls in the BDAT delivery", n))
 }
